@@ -152,18 +152,35 @@ def run_models(tier, rng):
         missing = [a for a in ACTIONS if not design.coverage.get(a)]
         if missing:
             raise lib.MachineryError("vacuity: actions never taken in the model: %s" % missing)
-    cases, emitted = [], {}
+    cases, emitted, strata = [], {}, {}
     for fam, cap in (("bounded", BOUNDED[tier][2]), ("random", RANDOM[tier][2])):
         lines = sorted(set(res[fam].cases))
         res[fam].cases = []
         emitted[fam] = len(lines)
-        if len(lines) > cap:
-            lines = rng.sample(lines, cap)
-        for i, line in enumerate(lines):
-            c = lib.parse_case(line)
+        parsed = [lib.parse_case(line) for line in lines]
+        if len(parsed) > cap:
+            # stratified VERIF_SEED sample: round-robin over the groups of runs that take the same path through the
+            # design (deciding points and statuses), under the same server script and output mode
+            groups = collections.defaultdict(list)
+            for c in parsed:
+                key = (tuple((h["at"], h["code"]) for h in c["exp"]), c["srv"]["net"], c["opt"]["output"],
+                       c["opt"]["legacy"], c["opt"]["force"], c["opt"]["register"], tuple(sorted(c["disk"].items())))
+                groups[key].append(c)
+            order = sorted(groups)
+            for k in order:
+                rng.shuffle(groups[k])
+            rng.shuffle(order)
+            parsed = []
+            while len(parsed) < cap:
+                for k in order:
+                    if groups[k] and len(parsed) < cap:
+                        parsed.append(groups[k].pop())
+            strata[fam] = len(order)
+        for i, c in enumerate(parsed):
             c["id"] = "%s#%d" % (fam, i)
             cases.append(c)
     print("timing: models " + ", ".join("%s %.1fs" % (n, r.wall) for n, r in res.items()))
+    print("sampling strata (distinct paths x scripts x output): %s" % strata)
     return res, cases, emitted
 
 
